@@ -914,7 +914,9 @@ def selftest_seeded(prop):
             viol = [l for l in c.stdout.split('\n') if l.startswith('VIOLATION')]
             res.append({'seeded': os.path.basename(d), 'exit': c.returncode, 'violations': len(viol),
                         'with_failing_input': sum(1 for l in viol if 'no-failing-input-found' not in l),
-                        'result': {0: 'MISSED', 1: 'reported', 2: 'undecided'}.get(c.returncode, 'error')})
+                        'result': {0: ('MISSED' if not meta.get('also_check') else
+                                       'not reported by this property; breaks %s first (see seeded/eval_results.json)' % ','.join(meta['also_check'])),
+                                   1: 'reported', 2: 'undecided'}.get(c.returncode, 'error')})
         finally:
             shutil.rmtree(tmp, ignore_errors=True)
             # the witness build made for this scratch tree (replay/run_witness.py names it after the tree's path)
